@@ -10,7 +10,7 @@
 From Coq Require Import List NArith ZArith Arith Bool.
 From Tongo Require Import Lib.Bits Lib.Res Spec.Sha256 Model.BocParse Model.CellHash Spec.ReprHash
   Model.Wallet Proofs.WalletP Proofs.WalletSigP Proofs.WalletRtP Proofs.WalletHlP Proofs.WalletLayoutP
-  Proofs.WalletExtP Proofs.WalletEnvP Model.WalletTransfer Proofs.WalletTransferP.
+  Proofs.WalletExtP Proofs.WalletEnvP Model.WalletTransfer Proofs.WalletTransferP Proofs.WalletClockP.
 From Tongo Require Model.TlbCore Spec.Dict Model.Hashmap.
 Import ListNotations.
 
@@ -314,6 +314,35 @@ Theorem C14_transfers_carried :
   exists carried, extract_raw chash (w_ver w) e = Ok carried /\ decode_transfers carried = Ok ts.
 Proof. exact transfers_carried. Qed.
 Print Assumptions C14_transfers_carried.
+
+(** *** expiry, clock as a parameter.  Wallet.CreateMessageBody signs the explicit
+    ValidUntil when one is given and otherwise now + the lifetime THE WALLET was
+    configured with (WithMessageLifetime d, else 3 minutes) — the value SendV2 /
+    Send take as well (C15_api_send_v2_expiry); RawSend / RawSendV2 /
+    createSignedMsgBodyCell take the caller's expiry (C14_extract_roundtrip). *)
+Theorem C14_create_message_body_expiry :
+  forall (SK : Type) (chash : cell -> res bytes) (sign : SK -> bytes -> bits),
+  (forall sk m, length (sign sk m) = 512%nat) ->
+  forall w sk life now cfg ms seqno rnd body,
+  modes_ok ms -> sendable (w_ver w) -> (seqno < 4294967296)%N ->
+  api_create_message_body SK chash sign w sk life now cfg ms seqno op_signed_external rnd = Ok body ->
+  exists d, decode_body (w_ver w) body = Ok d /\ d_msgs d = ms /\
+            d_valid d = unix32 (match cfg with Some v => v | None => expiry now life end).
+Proof. exact create_message_body_expiry. Qed.
+
+Theorem C14_create_message_body_default_expiry :
+  forall (SK : Type) (chash : cell -> res bytes) (sign : SK -> bytes -> bits),
+  (forall sk m, length (sign sk m) = 512%nat) ->
+  forall w sk olife now ms seqno rnd body,
+  modes_ok ms -> sendable (w_ver w) -> (seqno < 4294967296)%N ->
+  api_create_message_body SK chash sign w sk (lifetime_of olife) now None ms seqno op_signed_external rnd = Ok body ->
+  exists d, decode_body (w_ver w) body = Ok d /\
+            d_valid d = unix32 (match olife with
+                                | Some l => (now + l) / 1000000000
+                                | None => (now + 180000000000) / 1000000000
+                                end)%Z.
+Proof. exact create_message_body_default_expiry. Qed.
+Print Assumptions C14_create_message_body_default_expiry.
 
 (** The executable instance: [chash] = the TON representation hash over
     SHA-256 (C02 proves the implementation's Cell.Hash equal to it). *)
